@@ -13,7 +13,7 @@ import Golib.Model.C07Enc
 
 set_option linter.unusedSimpArgs false
 
-namespace Golib.C07
+namespace Golib.C07.Tie
 open Golib.GoSem
 
 /-- Lift a statement checked on the 256 byte values to every `BitVec 8`. -/
@@ -33,4 +33,202 @@ theorem trans_upper_eq (c : BitVec 8) :
   apply forall_byte
   decide +kernel
 
-end Golib.C07
+/-! ### `parseUint` -/
+
+section
+open Golib.Gen.Trans.C07 (parseUint_loop1)
+
+/-- Abstraction of a byte string. -/
+def bytesOf (s : List (BitVec 8)) : Bytes := s.map BitVec.toNat
+
+/-- What the translated loop answers for the model's loop result `(v, j, ok)`. -/
+def flowOf (r : Nat × Nat × Bool) : Flow (BitVec 64 × Int × Bool) (BitVec 64 × Int) :=
+  if r.2.2 then .done (BitVec.ofNat 64 r.1, (r.2.1 : Int)) else .ret (BitVec.ofNat 64 r.1, (r.2.1 : Int), false)
+
+/-- The digit switch in `BitVec 8` form (checked on all 256 bytes). -/
+theorem digitVal_bv (c : BitVec 8) :
+    digitVal c.toNat =
+      if 48#8 ≤ c ∧ c ≤ 57#8 then some (c - 48#8).toNat
+      else if 97#8 ≤ (c ||| 32#8) ∧ (c ||| 32#8) ≤ 122#8 then some ((c ||| 32#8) - 97#8 + 10#8).toNat
+      else none := by
+  revert c
+  apply forall_byte
+  decide +kernel
+
+theorem lower_ok (c : BitVec 8) : Golib.Gen.Trans.C07.lower c = .ok (c ||| 32#8) := by
+  revert c
+  apply forall_byte
+  decide +kernel
+
+theorem mul_toNat (n : BitVec 64) (base : Nat) :
+    (n * BitVec.ofNat 64 base).toNat = (n.toNat * base) % 2 ^ 64 := by
+  simp [BitVec.toNat_mul, Nat.mul_mod]
+
+theorem idx_append (pre : List (BitVec 8)) (c : BitVec 8) (rest : List (BitVec 8)) :
+    GoSem.idx (pre ++ c :: rest) (pre.length : Int) = .ok c := by
+  simp [GoSem.idx]
+
+theorem setWidth_toNat (d : BitVec 8) : (BitVec.setWidth 64 d).toNat = d.toNat := by
+  simp only [BitVec.toNat_setWidth]; omega
+
+/-- closes the part of the loop body after the digit `d` is known: the conditions of the
+translated code (`BitVec`) and of the model (`Nat`) are brought to the same `Nat` form, then both
+sides are split. -/
+macro "tail_tac" : tactic => `(tactic|
+  (simp only [ge_iff_le, gt_iff_lt, BitVec.le_def, BitVec.lt_def, BitVec.toNat_add, setWidth_toNat, mul_toNat,
+      BitVec.toNat_ofNat, Bool.or_eq_true, Bool.and_eq_true, decide_eq_true_eq, bytesOf]
+   repeat' split
+   all_goals first
+     | rfl
+     | (simp only [flowOf]; done)
+     | (simp_all [flowOf]; done)
+     | (exfalso; omega)))
+
+theorem loop_eq (base : Nat) (cutoff maxVal : BitVec 64) (rest : List (BitVec 8)) :
+    ∀ (pre : List (BitVec 8)) (n : BitVec 64) (fuel : Nat), rest.length < fuel →
+      parseUint_loop1 fuel (pre ++ rest) (base : Int) cutoff maxVal n (pre.length : Int)
+        = .ok (flowOf (parseUintLoop base cutoff.toNat maxVal.toNat (bytesOf rest) pre.length n.toNat)) := by
+  induction rest with
+  | nil =>
+    intro pre n fuel hf
+    obtain ⟨f, rfl⟩ : ∃ f, fuel = f + 1 := ⟨fuel - 1, by simp at hf; omega⟩
+    simp [parseUint_loop1, bytesOf, parseUintLoop, flowOf]
+  | cons c rest ih =>
+    intro pre n fuel hf
+    obtain ⟨f, rfl⟩ : ∃ f, fuel = f + 1 := ⟨fuel - 1, by simp at hf; omega⟩
+    have hf' : rest.length < f := by simp at hf; omega
+    have hstep := ih (pre ++ [c]) 
+    simp only [List.append_assoc, List.singleton_append, List.length_append, List.length_singleton, Int.natCast_add, Int.natCast_one] at hstep
+    unfold parseUint_loop1
+    simp only [bytesOf, List.map_cons, parseUintLoop, digitVal_bv c, idx_append, lower_ok, bind, pure, Res.bind_ok', BitVec.ofInt_natCast]
+    have hlen : (pre.length : Int) < Int.ofNat (pre ++ c :: rest).length := by simp; omega
+    simp only [hlen, decide_true, if_true, hstep _ f hf']
+    by_cases h1 : 48#8 ≤ c ∧ c ≤ 57#8
+    · simp only [h1, and_self, decide_true, Bool.and_self, if_true]
+      generalize c - 48#8 = d
+      tail_tac
+    · simp only [Bool.and_eq_true, decide_eq_true_eq, h1, if_false]
+      generalize c ||| 32#8 = l
+      by_cases h2a : 97#8 ≤ l <;> by_cases h2b : l ≤ 122#8 <;>
+        simp only [h2a, h2b, and_self, and_true, and_false, decide_true, decide_false, if_true, if_false, Res.bind_ok',
+          Bool.false_eq_true, flowOf]
+      generalize l - 97#8 + 10#8 = d
+      tail_tac
+
+/-- A successful run of the model's loop ends at `len(s)`. -/
+theorem parseUintLoop_true_idx (base cutoff maxVal : Nat) :
+    ∀ (s : Bytes) (i n v j : Nat), parseUintLoop base cutoff maxVal s i n = (v, j, true) → j = i + s.length := by
+  intro s
+  induction s with
+  | nil => intro i n v j h; simp [parseUintLoop] at h; simp only [List.length_nil]; omega
+  | cons c rest ih =>
+    intro i n v j h
+    simp only [parseUintLoop] at h
+    repeat' split at h
+    all_goals first
+      | (have := ih _ _ _ _ h; simp only [List.length_cons]; omega)
+      | (exfalso; simp at h; done)
+
+theorem cutoff_toNat (base : Nat) (h2 : 2 ≤ base) (hb : base < 2 ^ 64) :
+    (18446744073709551615#64 / BitVec.ofNat 64 base + 1#64).toNat = (2 ^ 64 - 1) / base + 1 := by
+  have hq : (2 ^ 64 - 1) / base < 2 ^ 63 := by
+    apply Nat.div_lt_of_lt_mul; omega
+  simp only [BitVec.toNat_add, BitVec.toNat_udiv, BitVec.toNat_ofNat]
+  rw [Nat.mod_eq_of_lt hb]
+  simp only [Nat.reducePow, Nat.reduceMod, Nat.reduceSub] at hq ⊢
+  generalize 18446744073709551615 / base = q at hq ⊢
+  omega
+
+theorem maxVal_toNat (bitSize : Nat) (hb : bitSize < 2 ^ 64) :
+    ((1#64 <<< (BitVec.ofNat 64 bitSize).toNat) - 1#64).toNat = (2 ^ bitSize % 2 ^ 64 + 2 ^ 64 - 1) % 2 ^ 64 := by
+  simp only [BitVec.toNat_sub, BitVec.toNat_shiftLeft, BitVec.toNat_ofNat, Nat.shiftLeft_eq, Nat.one_mul]
+  rw [Nat.mod_eq_of_lt hb]
+  simp only [Nat.reducePow, Nat.reduceMod, Nat.reduceSub]
+  omega
+
+/-- The regenerated `parseUint` IS the hand-written model for every byte string, every base
+`2 ≤ base < 2^64` and every `bitSize < 2^64` (the codecs call it with 8/16 and 8/16/32). -/
+theorem trans_parseUint_eq (s : List (BitVec 8)) (base bitSize : Nat)
+    (h2 : 2 ≤ base) (hb : base < 2 ^ 64) (hbits : bitSize < 2 ^ 64) :
+    Golib.Gen.Trans.C07.parseUint s (base : Int) (bitSize : Int)
+      = .ok (BitVec.ofNat 64 (Golib.C07.parseUint (bytesOf s) base bitSize).1,
+             ((Golib.C07.parseUint (bytesOf s) base bitSize).2.1 : Int),
+             (Golib.C07.parseUint (bytesOf s) base bitSize).2.2) := by
+  unfold Golib.Gen.Trans.C07.parseUint Golib.C07.parseUint
+  have hne : BitVec.ofNat 64 base ≠ 0 := by
+    intro h0
+    have := congrArg BitVec.toNat h0
+    simp only [BitVec.toNat_ofNat, Nat.mod_eq_of_lt hb, BitVec.ofNat_eq_ofNat, BitVec.toNat_zero] at this
+    omega
+  have hl := loop_eq base (18446744073709551615#64 / BitVec.ofNat 64 base + 1#64)
+    ((1#64 <<< (BitVec.ofNat 64 bitSize).toNat) - 1#64) s [] 0#64 (s.length + 1) (by omega)
+  simp only [List.nil_append, List.length_nil, Int.natCast_zero, cutoff_toNat base h2 hb,
+    maxVal_toNat bitSize hbits, BitVec.toNat_zero] at hl
+  simp only [BitVec.ofInt_natCast, GoSem.udiv, hne, if_false, bind, pure, Res.bind_ok', hl]
+  generalize hr : parseUintLoop base ((2 ^ 64 - 1) / base + 1) ((2 ^ bitSize % 2 ^ 64 + 2 ^ 64 - 1) % 2 ^ 64) (bytesOf s) 0 0 = r
+  obtain ⟨v, j, ok⟩ := r
+  cases ok with
+  | false => simp [flowOf]
+  | true =>
+    have := parseUintLoop_true_idx _ _ _ _ _ _ _ _ hr
+    simp [flowOf, this, bytesOf]
+
+/-- Where the model does not apply: base 0 is a division by zero in `maxUint64/uint64(base)`. -/
+theorem trans_parseUint_base0 (s : List (BitVec 8)) (bitSize : Int) :
+    Golib.Gen.Trans.C07.parseUint s 0 bitSize = .panic := by
+  unfold Golib.Gen.Trans.C07.parseUint
+  simp [GoSem.udiv, bind]
+
+end
+
+/-! ### `toUpper` -/
+
+section
+open Golib.Gen.Trans.C07 (toUpper_loop1)
+
+/-- `upper` on `BitVec 8` through the model. -/
+def upperBV (c : BitVec 8) : BitVec 8 := BitVec.ofNat 8 (Golib.C07.upper c.toNat)
+
+theorem upper_ok (c : BitVec 8) : Golib.Gen.Trans.C07.upper c = .ok (upperBV c) := trans_upper_eq c
+
+theorem upper_lt (c : BitVec 8) : Golib.C07.upper c.toNat < 256 := by
+  revert c; apply forall_byte; decide +kernel
+
+theorem setIdx_append {α : Type} (out : List α) (x v : α) (tail : List α) :
+    GoSem.setIdx (out ++ x :: tail) (out.length : Int) v = .ok (out ++ v :: tail) := by
+  simp [GoSem.setIdx]
+
+theorem toUpper_loop_eq (rest : List (BitVec 8)) :
+    ∀ (pre : List (BitVec 8)) (fuel : Nat), rest.length < fuel →
+      toUpper_loop1 fuel (pre ++ rest) (pre.length : Int) (pre.map upperBV ++ rest)
+        = .ok ((pre ++ rest).map upperBV) := by
+  induction rest with
+  | nil =>
+    intro pre fuel hf
+    obtain ⟨f, rfl⟩ : ∃ f, fuel = f + 1 := ⟨fuel - 1, by simp at hf; omega⟩
+    simp [toUpper_loop1]
+  | cons c rest ih =>
+    intro pre fuel hf
+    obtain ⟨f, rfl⟩ : ∃ f, fuel = f + 1 := ⟨fuel - 1, by simp at hf; omega⟩
+    have hf' : rest.length < f := by simp at hf; omega
+    have hstep := ih (pre ++ [c]) f hf'
+    simp only [List.append_assoc, List.singleton_append, List.length_append, List.length_singleton,
+      Int.natCast_add, Int.natCast_one, List.map_append, List.map_cons, List.map_nil] at hstep
+    have hlen : (pre.length : Int) < Int.ofNat (pre ++ c :: rest).length := by simp; omega
+    have hset := setIdx_append (pre.map upperBV) c (upperBV c) rest
+    simp only [List.length_map] at hset
+    unfold toUpper_loop1
+    simp only [hlen, decide_true, if_true, idx_append, upper_ok, hset, bind, pure, Res.bind_ok', hstep,
+      List.map_append, List.map_cons]
+
+theorem trans_toUpper_eq (dst : List (BitVec 8)) :
+    Golib.Gen.Trans.C07.toUpper dst = .ok ((Golib.C07.toUpper (bytesOf dst)).map (BitVec.ofNat 8)) := by
+  unfold Golib.Gen.Trans.C07.toUpper
+  have h := toUpper_loop_eq dst [] (dst.length + 1) (by omega)
+  simp only [List.nil_append, List.length_nil, Int.natCast_zero, List.map_nil] at h
+  simp only [bind, pure, h, Res.bind_ok', Golib.C07.toUpper, bytesOf, List.map_map]
+  rfl
+
+end
+
+end Golib.C07.Tie
